@@ -852,6 +852,10 @@ def gen_dc_hier(rng, ctr, case):
         lopts = {}
         for f in leaf:
             o = rng.random()
+            if is_pool(f[3]) and f[3].split(".", 1)[1] in ("function", "lambda"):
+                # (a function object kept as a CLASS attribute is a descriptor: read through an instance it comes back
+                # as a bound method -- python's business, not the node's; such a default stays an ordinary init field)
+                continue
             if f[2] == "v" and o < 0.12:
                 lopts[f[0]] = "cv"
             elif f[2] in ("v", "f") and o < 0.22:
